@@ -91,6 +91,9 @@ static int g_naw;
 static ABTI_mem_pool_global_pool g_gp;
 static size_t g_hsize, g_hoff;
 static int g_done_workers;
+static int g_conc_destroy, c_conc_destroy;
+static pthread_barrier_t g_destroy_bar;
+static void verify_epoch(vrt_rng *r, int n_per_pool);
 
 static void fill(void *p, uint64_t tag)
 {
@@ -209,7 +212,62 @@ static void *aw_worker(void *arg)
     }
     while (w->nheld > 0 && vrt_num_violations() == 0)
         aw_free_block(w, w->held[--w->nheld]);
+    if (g_conc_destroy) {
+        /* all local pools are destroyed at the same moment, each by its own
+         * thread (as concurrent ABT_xstream_free calls do) */
+        pthread_barrier_wait(&g_destroy_bar);
+        ABTI_mem_pool_destroy_local_pool(&w->local);
+    }
     return NULL;
+}
+
+/* after concurrent destruction: what the global pool hands out must still be
+ * pairwise distinct, keep its contents and be conserved */
+static void verify_epoch(vrt_rng *r, int n_per_pool)
+{
+    enum { NP = 3 };
+    ABTI_mem_pool_local_pool lp[NP];
+    static blk_t blk[NP][4096];
+    int nb[NP] = { 0, 0, 0 };
+    if (n_per_pool > 4096)
+        n_per_pool = 4096;
+    for (int i = 0; i < NP; i++)
+        if (ABTI_mem_pool_init_local_pool(&lp[i], &g_gp) != ABT_SUCCESS)
+            vrt_fatal("init_local_pool failed");
+    for (int k = 0; k < n_per_pool && vrt_num_violations() == 0; k++)
+        for (int i = 0; i < NP; i++) {
+            void *p = NULL;
+            int rc = ABTI_mem_pool_alloc(&lp[i], &p);
+            if (rc != ABT_SUCCESS || !p) {
+                vrt_violation("mem:alloc-failed", "ABTI_mem_pool_alloc returned %d after the pools were destroyed concurrently", rc);
+                break;
+            }
+            if (!set_insert((uintptr_t)p)) {
+                vrt_violation("mem:block-handed-out-twice", "block %p was handed out twice after local pools had been "
+                              "destroyed concurrently", p);
+                break;
+            }
+            uint64_t tag = vrt_next(r) | 1;
+            fill(p, tag);
+            blk[i][nb[i]].p = p;
+            blk[i][nb[i]].tag = tag;
+            nb[i]++;
+            vrt_count(c_allocs, 1);
+        }
+    for (int i = 0; i < NP; i++) {
+        for (int k = 0; k < nb[i] && vrt_num_violations() == 0; k++) {
+            if (!verify(blk[i][k].p, blk[i][k].tag))
+                vrt_violation("mem:live-block-overwritten", "a live block lost its contents after local pools had been "
+                              "destroyed concurrently");
+            set_remove((uintptr_t)blk[i][k].p);
+            ABTI_mem_pool_free(&lp[(i + k) % NP], blk[i][k].p);
+            vrt_count(c_frees, 1);
+        }
+        vrt_count(c_pattern_checks, (uint64_t)nb[i]);
+    }
+    for (int i = 0; i < NP; i++)
+        ABTI_mem_pool_destroy_local_pool(&lp[i]);
+    vrt_count(c_conc_destroy, 1);
 }
 
 static void run_alloc(vrt_rng *r, int scen, int ops)
@@ -253,12 +311,21 @@ static void run_alloc(vrt_rng *r, int scen, int ops)
             if (ABTI_mem_pool_init_local_pool(&w->local, &g_gp) != ABT_SUCCESS)
                 vrt_fatal("init_local_pool failed");
         }
+        g_conc_destroy = g_naw >= 2 && vrt_range(r, 2);
+        if (g_conc_destroy)
+            pthread_barrier_init(&g_destroy_bar, NULL, (unsigned)g_naw);
         for (int i = 0; i < g_naw; i++)
             pthread_create(&g_aw[i].pt, NULL, aw_worker, &g_aw[i]);
         for (int i = 0; i < g_naw; i++)
             pthread_join(g_aw[i].pt, NULL);
+        if (g_conc_destroy) {
+            pthread_barrier_destroy(&g_destroy_bar);
+            if (vrt_num_violations() == 0)
+                verify_epoch(r, cap);
+        }
         for (int i = 0; i < g_naw; i++) {
-            ABTI_mem_pool_destroy_local_pool(&g_aw[i].local);
+            if (!g_conc_destroy)
+                ABTI_mem_pool_destroy_local_pool(&g_aw[i].local);
             free(g_aw[i].held);
             pthread_mutex_destroy(&g_aw[i].lock);
         }
@@ -272,7 +339,7 @@ static void run_alloc(vrt_rng *r, int scen, int ops)
         if (s < 3)
             vrt_sample("alloc scenario %d: element %zu B (header offset %zu), page %zu B, %d headers/bucket, %d "
                        "threads x %d ops, <=%d live blocks/thread", s, g_hsize, g_hoff, psize, nb, g_naw, ops, cap);
-        vrt_signature_add("h%zu,o%zu,p%zu,b%d,t%d,lp%u", g_hsize, g_hoff, psize, nb, g_naw, lp);
+        vrt_signature_add("h%zu,o%zu,p%zu,b%d,t%d,lp%u,cd%d", g_hsize, g_hoff, psize, nb, g_naw, lp, g_conc_destroy);
         vrt_count(c_cases, 1);
     }
 }
@@ -622,6 +689,7 @@ int main(int argc, char **argv)
     c_allocs = vrt_counter("blocks_allocated");
     c_frees = vrt_counter("blocks_freed");
     c_handover = vrt_counter("blocks_freed_by_other_thread");
+    c_conc_destroy = vrt_counter("concurrent_local_pool_destructions_verified");
     c_pattern_checks = vrt_counter("pattern_checks");
     c_ults = vrt_counter("ults");
     c_default_stack = vrt_counter("ults_default_stack");
